@@ -544,7 +544,13 @@ def gen_spec(rng, family="plain", types=None):
     charts = [gen_chart(rng, typ=rng.choice(types) if types else None) for _ in range(rng.choice((1, 1, 2, 3)))]
     total = 4 * max(len(c["measures"]) for c in charts)
     n_extra = rng.choice((0, 1, 1, 2, 2, 3, 4))
-    return dict(header=gen_header(rng, stops_tag=family != "no_stops_tag"), bpms=gen_tempo(rng, n_extra, total, "mixed"), charts=charts, style=gen_style(rng, family, charts))
+    spec = dict(header=gen_header(rng, stops_tag=family != "no_stops_tag"), bpms=gen_tempo(rng, n_extra, total, "mixed"), charts=charts, style=gen_style(rng, family, charts))
+    if len(spec["bpms"]) > 2 and rng.random() < 0.25:
+        order = list(range(len(spec["bpms"])))
+        tail = order[1:]
+        rng.shuffle(tail)
+        spec["bpms_file_order"] = [0] + tail  # the beat-0 pair stays first, the others in any order
+    return spec
 
 
 def render(spec):
@@ -568,7 +574,11 @@ def render(spec):
     for tag, val in spec["header"]:
         noise(0.15)
         if tag == "BPMS":
-            val = (",\n" if st["bpm_newlines"] else ",").join(f"{b}={v}" for b, v in spec["bpms"])
+            pairs = list(spec["bpms"])
+            if spec.get("bpms_file_order"):
+                # the #BPMS value is a set of beat=bpm pairs: their order in the text carries no meaning
+                pairs = [pairs[i] for i in spec["bpms_file_order"] if i < len(pairs)]
+            val = (",\n" if st["bpm_newlines"] else ",").join(f"{b}={v}" for b, v in pairs)
         out.append(f"#{tag}:{val};")
     for ci, ch in enumerate(spec["charts"]):
         noise(0.3)
